@@ -20,6 +20,7 @@ class Facts:
         self.deliveries = collections.defaultdict(list)   # i -> [(step, v, e)]
         self.cancel_step = {}  # ctx -> step
         self.ending_actions = False
+        self.armed = {}        # error text of an injected fault -> the points it was armed for (0 write request, 1 write response, 2 marshal, 3 unmarshal)
         self.first_report = None   # (step, text)
         self.reports = []          # every report (step, text)
         self.bclosed_step = None
@@ -39,6 +40,8 @@ class Facts:
                     self.ending_actions = True
             elif env in ENDING_ENV:
                 self.ending_actions = True
+                if env == "arm":
+                    self.armed.setdefault("inj%d" % c.get("n", 0), set()).add(c.get("w", 0))
             elif env == "deliver-req" and c.get("f") in ENDING_FN:
                 self.ending_actions = True
             evs = st["obs"]["events"]
@@ -259,6 +262,13 @@ def mon_c16(f):
             out.append("Link returned 'closed' (the consequential error of a call made on the already ended link) instead of the failure that ended the link (%s)" % ", ".join(sorted(set(r[1] for r in f.reports if r[1] != "closed"))) )
     if f.quiescent and f.first_report is not None and f.linkret is None:
         out.append("the link ended (%r) but Link has not returned at quiescence" % (f.first_report[1],))
+    # once the link context is cancelled nothing is handed to the transport any more (both write paths look at the
+    # context first), so a fault armed for a transport write cannot fire afterwards and become the reported error
+    k0 = f.cancel_step.get(0)
+    if k0 is not None and (f.bclosed_step is None or f.bclosed_step >= k0) and f.first_report is not None and f.first_report[0] > k0:
+        pts = f.armed.get(f.first_report[1], set())
+        if pts and pts <= {0, 1}:
+            out.append("step %d: the link context had been cancelled at step %d while the link was still up, yet a frame was handed to the transport afterwards and ITS failure %r became the first reported error: Link returns a consequential error instead of the context's" % (f.first_report[0], k0, f.first_report[1]))
     return out
 
 
@@ -446,6 +456,8 @@ def check(res, tier, seed):
                             vs.append("%s: Link returned %r, not the context's error %r" % (r["config"], c["err"], want))
                     elif c["m"] == "LinkReturn" and c["ret"] != "returned":
                         vs.append("Link did not return although an error was reported (%s)" % r["config"])
+                    elif c["m"] == "LinkStillUp" and c["ret"] != "up":
+                        vs.append("Link returned %r on the %s although the link is healthy: only the context of one invocation of a callable was cancelled, a call was cancelled and a handler returned an error" % (c["err"], c.get("extra")))
             if vs:
                 monitor_hits += 1
                 res.violation("linkend:" + re.sub(r"\d+", "N", vs[0])[:60], "implementation violates %s: %s" % (pid, vs[0]),
